@@ -147,7 +147,18 @@ def evaluate(e, ctx):
         if dom is None and type(e).__name__ in ("Coefficient", "Argument"):
             dom = ctx.world.resolve(e).ufl_function_space().ufl_domain()
         if dom is not None and dom != wm:
-            raise StructureMismatch(f"{type(e).__name__} lives on another mesh than the one integrated over")
+            other = getattr(ctx.world, "others", {}).get(dom)
+            if other is None:
+                raise StructureMismatch(f"{type(e).__name__} lives on another mesh than the one integrated over")
+            # a world may know further meshes (each with its own cell, same reference point): the terminal is
+            # evaluated there; only plain values, no derivative frames, no sides
+            if ctx.d or ctx.side is not None:
+                raise Unsupported("terminal of a second mesh under a derivative frame / restriction")
+            oc = ctx.root.kids.get(("other", id(other)))
+            if oc is None:
+                oc = ctx.root.kids[("other", id(other))] = Ctx(other, ctx.B, (), None, None)
+                oc.strict_struct = ctx.root.strict_struct
+            return evaluate(e, oc)
     sub = getattr(ctx.world, "subst", None)
     if sub and not ctx.nosub and e._ufl_is_terminal_ and type(e).__name__ in ("Coefficient", "Argument", "Constant") and e in sub:
         r = _substituted(e, sub[e], ctx)
